@@ -10,6 +10,7 @@ import (
 	"sort"
 	"testing"
 
+	"go.sia.tech/core/consensus"
 	"go.sia.tech/core/types"
 	"verifharness/hx"
 	"verifharness/mat"
@@ -381,7 +382,7 @@ func (r *replayer) runPath(pi int, path []edgeJ) {
 		e := path[i]
 		r.res.Eval(fmt.Sprintf("%d|%s|%s", ti, hx.JSON(e.Act), hx.JSON(e.To.Best)))
 		switch e.Act.Op {
-		case "Submit":
+		case "Submit", "SubmitV":
 			// one AddBlocks call = this edge plus every following edge until the manager is idle again
 			j := i + 1
 			var wantOps []string
@@ -417,7 +418,15 @@ func (r *replayer) runPath(pi int, path []edgeJ) {
 				// The header loop only writes uncommitted data, so reopening from the last snapshot is exact.
 				cls = "crash"
 			} else {
-				cls, ops, detail = n.Submit(r.blocks(t, e.Act.Batch), flushAt, crashAt)
+				if e.Act.Op == "SubmitV" {
+					var states []consensus.State
+					for _, id := range e.Act.Batch {
+						states = append(states, t.Node(id).L.CS)
+					}
+					cls, ops, detail = n.SubmitValidated(r.blocks(t, e.Act.Batch), states, flushAt, crashAt)
+				} else {
+					cls, ops, detail = n.Submit(r.blocks(t, e.Act.Batch), flushAt, crashAt)
+				}
 			}
 			var gotOps []string
 			auto := false
